@@ -147,7 +147,7 @@ def icLookXE (C : NNet) (tl : PinIdx) (e : Entry) : IcExit :=
   let n2 := splitSlash e.b
   icLookX C tl (stripBackslash n1.1) n1.2 (stripBackslash n2.1) n2.2
 
-/-- **structural hypothesis on the dump** (decidable; evaluated on every circuit the harness parses, tag `hyp:icStruct:*`):
+/-- **structural hypothesis on the dump** (decidable; evaluated on every circuit the harness parses, tag `c14-hyp:icStruct:*`):
 the structure `verilog.parse` builds around cells — every fork has exactly one input pin and it is connected; every line that
 leaves a pin of a cell (gate, port, state element) enters a fork and every line that enters a pin of a cell leaves a fork. -/
 def icStructOKB (C : NNet) : Bool :=
